@@ -17,6 +17,9 @@ typedef struct S TS; TS ts; TS *pts;
 enum E { K1, K2 = 5 } e; enum E e2;
 int f0(void); int f1(int); int g2(int, double); int fv(int, ...); void fvoid(void); double fd(double); int fp1(int *); int fvp(void *); int fcc(const char *); int fs(struct S);
 int (*fp)(int); void (*fpv)(void); int *fpr(void); struct S fst(void);
+typedef int row_t[3]; typedef row_t grid_t[2];
+struct M { double m[4][4]; row_t cell[3]; grid_t gr; struct { int g[2][2]; union { char u[2][2][2]; int w; } iu; } in; char name[8]; struct S as[2]; } ma, mb, *pma;
+union UM { int k[2][3]; struct M sm; row_t r; } uma, umb, *puma; struct M fma(void); int fmm(struct M); int fum(union UM);
 """
 BIN = ["*", "/", "%", "+", "-", "<<", ">>", "<", ">", "<=", ">=", "==", "!=", "&", "^", "|", "&&", "||"]
 ASG = ["=", "*=", "/=", "%=", "+=", "-=", "<<=", ">>=", "&=", "^=", "|="]
@@ -52,6 +55,11 @@ def tests():
         "{ int * const lk = p; lk; }", "{ int *lp = kp; lp; }", "{ int lm[2][2] = { { 1, 2 }, { 3, 4 } }; lm; }", "{ double *lpd = da; lpd; }", "{ int **lpp = &p; lpp; }",
     ]
     struct_stmts = [
+        # aggregates whose members are arrays of arrays (directly, through typedefs, inside anonymous-type members, inside unions): assignable as a whole
+        "ma = mb;", "*pma = ma;", "ma = *pma;", "ma.in = mb.in;", "ma.in.iu = mb.in.iu;", "pma->in = ma.in;", "uma = umb;", "*puma = uma;", "uma.sm = ma;", "ma = uma.sm;", "ma = fma();", "fmm(ma);", "fmm(*pma);",
+        "fum(uma);", "{ struct M lm = ma; lm; }", "{ struct M lm = fma(); lm; }", "{ union UM lu = uma; lu; }", "ma.m[1][2] = 1.0;", "ma.cell[1][2] = 3;", "ma.gr[1][2] = ma.cell[0][0];", "ma.in.g[1][1];",
+        "ma.in.iu.u[1][1][1] = 'c';", "pma->m[0][0];", "pma = &ma;", "(i ? ma : mb).cell[0][0];", "ma.as[1] = st;", "st = ma.as[0];", "ma.as[0].arr[1] = 2;", "uma.k[1][2] = 1;", "uma.r[0];", "sizeof ma.m;", "sizeof(ma.cell[0]);",
+        "p = ma.cell[1];", "p = ma.in.g[0];", "pd = ma.m[2];", "pc = ma.name;", "pc = ma.in.iu.u[1][0];", "(ma = mb).name[0];", "fma().m[1][1];", "(0, ma).gr[0][1];",
         "st.m;", "st.n;", "st.o;", "st.arr[1];", "st.next;", "st.next->m;", "ps->m;", "ps->next->next->o;", "(*ps).m;", "(&st)->m;", "st.m = 1;", "ps->n = 'c';", "st = st2;", "*ps = st;", "ps = &st;", "ps = st.next;", "st.next = ps;",
         "st.next = 0;", "st.m + st.o;", "st.m++;", "&st.m;", "&ps->o;", "p = &st.m;", "p = st.arr;", "pd = &ps->o;", "un.m;", "un.o = 1.0;", "pu->m;", "pu = &un;", "un = *pu;", "ts.m;", "pts->o;", "ts = st;", "st = ts;", "pts = ps;", "ps = pts;",
         "pts = &ts;", "ps == pts;", "ps == 0;", "!ps;", "ps ? 1 : 0;", "i ? ps : 0;", "i ? st : st2;", "(i ? st : st2).m;", "fst().m;", "fs(st);", "fs(ts);", "fs(*ps);", "st = fst();", "sizeof st;", "sizeof(struct S);", "sizeof(TS);", "sizeof st.arr;",
@@ -62,7 +70,7 @@ def tests():
     call_stmts = [
         "f0();", "f1(1);", "f1(i);", "f1(c);", "f1(d);", "f1('a');", "f1(K1);", "f1(f0());", "f1(f1(1));", "g2(1, 2.0);", "g2(i, i);", "g2(c, f);", "fv(1);", "fv(1, 2);", "fv(1, 2.0, \"s\", p);", "fv(i, c, s, f);", "fvoid();", "fd(1);", "fd(f);", "fd(fd(d));",
         "fp1(p);", "fp1(a);", "fp1(&i);", "fp1(0);", "fp1(vp);", "fp1(tp);", "fp1(&st.m);", "fp1(st.arr);", "fvp(p);", "fvp(pc);", "fvp(vp);", "fvp(0);", "fvp(&st);", "fvp(ps);", "fvp(a);", "fvp(\"s\");", "fcc(pc);", "fcc(ccp);", "fcc(\"lit\");", "fcc(ca);", "fcc(0);",
-        "i = f0();", "d = fd(1.0);", "i = f1(2) + f0();", "p = fpr();", "*fpr() = 1;", "fpr()[0];", "fp = f1;", "fp = &f1;", "fp(1);", "(*fp)(1);", "(**fp)(1);", "i = fp(2);", "fpv = fvoid;", "fpv();", "(*fpv)();", "fp == f1;", "fp != 0;", "fp ? 1 : 0;", "!fp;", "fp = 0;",
+        "i = f0();", "d = fd(1.0);", "i = f1(2) + f0();", "p = fpr();", "*fpr() = 1;", "fpr()[0];", "fp = f1;", "fp = &f1;", "fp = &(f1);", "fp == &f1;", "fp = &*fp;", "fp = *&f1;", "(&f1)(1);", "{ int (*lf)(int) = &f1; lf; }", "fpv = &fvoid;", "fp(1);", "(*fp)(1);", "(**fp)(1);", "i = fp(2);", "fpv = fvoid;", "fpv();", "(*fpv)();", "fp == f1;", "fp != 0;", "fp ? 1 : 0;", "!fp;", "fp = 0;",
         "(void)f0();", "(void)fvoid();", "f0() + 1;", "f0() ? 1 : 2;", "if (f0()) ;", "f1(i ? 1 : 2);", "f1((i, 2));", "f1(sizeof(int));", "g2(f0(), fd(1));", "{ int (*lfp)(int) = f1; lfp(1); }", "{ int (*lfp)(int) = 0; lfp; }", "{ int lr = f1(1); lr; }",
         "{ double lr = fd(2); lr; }", "{ int *lr = fpr(); lr; }", "{ struct S lr = fst(); lr; }", "sizeof f0();", "sizeof(f1(1));", "fst();", "fst().arr[0];", "f1(st.m);", "f1(ps->arr[1]);", "g2(a[0], da[1]);", "f1(*p);", "f1(p[1]);", "f1(un.m);", "f1(e);", "f1(ti);", "fd(td);", "f1(tc);",
     ]
